@@ -315,6 +315,14 @@ func (r *Run) Phase(name string, bound string, fn func()) {
 	}
 }
 
+// HasViolations reports whether any violation has been recorded so far (the verdict is then decided: free-running
+// supplements, which can end the process with an unrecoverable runtime error, need not run any more).
+func (r *Run) HasViolations() bool {
+	r.mu.Lock()
+	defer r.mu.Unlock()
+	return len(r.viol) > 0
+}
+
 func (r *Run) record(v *Violation) {
 	key := v.Probe + "\x00" + v.Kind + "\x00" + string(v.Arg)
 	r.mu.Lock()
@@ -528,6 +536,14 @@ func Main(id string, rule string, body func(r *Run)) {
 	r.firstPass = true
 	body(r)
 	r.firstPass = false
+	if r.HasViolations() {
+		// The serial histories from the initial state already found violations: the verdict is decided. The mass phases are
+		// not started - a library with broken hidden state can end them with an unrecoverable runtime error (concurrent map
+		// writes), which would lose what has been found.
+		r.phases = append(r.phases, PhaseInfo{Name: "all remaining phases", Exhaustive: false, Bound: "skipped: the first pass (serial histories from the initial state) already found violations"})
+		r.expired.Store(true)
+		os.Exit(r.finish())
+	}
 	body(r)
 	os.Exit(r.finish())
 }
